@@ -18,15 +18,15 @@ func init() {
 }
 
 type c15conn struct {
-	k       int
-	cause   string
-	want    string // expected status
-	auth    bool   // AddAuthenticated expected
-	probe   bool   // AddProbe expected
-	complete bool  // ran to completion: counters must be exact
-	key     *Key
-	c       *simnet.TCPConn
-	done    bool
+	k        int
+	cause    string
+	want     string // expected status
+	auth     bool   // AddAuthenticated expected
+	probe    bool   // AddProbe expected
+	complete bool   // ran to completion: counters must be exact
+	key      *Key
+	c        *simnet.TCPConn
+	done     bool
 	dialPort int // the target port this connection's own dial goes to (0: none expected)
 }
 
